@@ -192,6 +192,28 @@ MANIFEST["note"] += ("; link model: block numbers abstract (comparison by positi
                      "position the node model routes to; non-WAL images only")
 LINK_LEVELS = [0, 0, 1, 1, 2, 2, 3, 4, 5, 6]
 
+# writer of one node record (Model/KvNode.lean): the node clause ("non-empty, internally sorted, true prefix of its lowest key") by
+# induction over the operations of a one-node database
+THEOREMS += ["IwModel.C06." + t for t in (
+    "nodeinv_spec", "nodeinv_empty", "nodeinv_put", "nodeinv_del", "nodeinv_cursor_set", "nodeinv_cursor_del", "nodeinv_history",
+    "node_lookup_agrees", "node_find_pi", "node_find_pi_found_iff", "nodeinv_audit", "history_node_audit")]
+MODELLED_FUNCS['src/kv/iwkv.c'] += ['_sblk_find_pi_mm', '_sblk_insert_pi_mm', '_sblk_addkv2', '_sblk_addkv', '_sblk_updatekv', '_sblk_rmkv',
+                                   '_lx_sblk_cmp_key', '_lx_addkv', '_lx_del_lw']
+MANIFEST["text"] += ("; the node clause is proved inductively on a writer model of ONE node record (IwModel.KvNode: flags/SBLK_FULL_LKEY, lkl, "
+                     "pnum, pi[], cached first key lk[], data block = the KvBlk model; _sblk_find_pi_mm binary search, _sblk_insert_pi_mm, "
+                     "_sblk_addkv, _sblk_addkv2, _sblk_updatekv, _sblk_rmkv with the cache refresh rules, _lx_sblk_cmp_key, routing of put / del / "
+                     "cursor set / cursor del for a database within one node): NodeInv (pi = permutation of the used slots, keys strictly "
+                     "descending, pnum = number of records, lkl = min(len,115), cached bytes = prefix, FULL_LKEY iff len <= 115) is kept by every "
+                     "operation and history (nodeinv_*), the binary search returns the position / insertion point (node_find_pi), the lookup through "
+                     "the cached prefix has the sign of the full comparison (node_lookup_agrees, from the C19 comparator theorems), and a NodeInv "
+                     "node passes the node part of the audit (nodeinv_audit, through blkinv_checkSlots for the block); after EVERY operation of "
+                     "generated one-node histories (plain and compound byte keys, keys longer than 115 bytes sharing their first 115 bytes) the "
+                     "model node is compared with the node record the Lean reader finds in the file: pnum, pi[0..pnum), lkl, cached bytes, "
+                     "FULL_LKEY bit, plus the data block")
+MANIFEST["note"] += ("; node model: one node only (no split, no second node), byte-string comparator only (integer / real key modes not in the "
+                     "node model), node address / level / links / page slot abstract (link model), stale pi[] entries beyond pnum and stale lk[] bytes "
+                     "beyond lkl not compared")
+
 
 def gen_link_history(r, nbulk, nwaves, cursors=False):
     """one or two plain-key databases; every put/del is followed by `nodes` and `image`.  With `cursors`, some waves
@@ -1058,6 +1080,12 @@ def run(ctx):
             explore_node(ctx, h, drv, 18, 1200, "ntl")
             explore_block(ctx, h, drv, 400, 200, "bt")
             explore_block(ctx, h, drv, 20, 1500, "btl")
+    if drv:
+        ctx.cov["rule"] += ("; node stream: the same shape of history with key families aimed at the cached first key (short keys, 113..118 bytes, keys "
+                            "longer than 115 bytes with a common 115-byte start, prefixes of one string, compound keys), directed steps (the first key goes "
+                            "and the next one is long / short / shares the cached bytes, overwrite of the first key with a moving record, insert in front of "
+                            "the first key), puts, deletes, cursor sets and cursor deletes: the Lean node writer model (IwModel.KvNode) must equal the node "
+                            "record in the file (pnum, pi, lkl, cached bytes, FULL_LKEY bit) and its data block after EVERY op")
     if (ctx.proof_broken or ctx.corr_broken) and not ctx.violations:
         explore(ctx, h, drv, 80, 250, "search")
 
